@@ -9,6 +9,11 @@
 //!   /                 chunk boundary (apply pending chunk)  i:<n>   next entry gets index n
 //!   G:<k>  M:<k>,<k>  S:<p>   get / get_multi / scan_prefix (flush the pending chunk first)
 //!   U:<p>             the private `prefix_successor(p)` of the RocksDB engine (hook), printed as a read `U<hex|_>`
+//!   L:<r>:<d>:<p>     (C25) the API path: REAL `RaftRoleState::push_client_cmd(ClientCmd::Scan(p, ..))` on a real
+//!                     `LeaderState` (r=l) / `FollowerState` (f) / `CandidateState` (c) / `LearnerState` (n) whose
+//!                     `RaftContext` holds THIS engine as state machine and whose commit index is
+//!                     last_applied + d (committed-but-unapplied entries); prints the answer like `S..@rev`, or
+//!                     `Enot-leader` / `E<code>`
 //!   X:<p>             (C25) scan_prefix(p) with the pending chunk applied *inside* the scan/apply gap:
 //!                     RocksDB: between the revision load and the iterator creation (since the F24 fix; hook
 //!                     `verif_set_rocks_scan_gap_callback`);
@@ -43,6 +48,8 @@ enum Op {
     Scan(Vec<u8>),
     GapScan(Vec<u8>),
     Succ(Vec<u8>),
+    /// role (l/f/c/n), commit index = last_applied + delta, prefix
+    RoleScan(char, u64, Vec<u8>),
 }
 
 fn parse(case: &str) -> Option<Vec<Op>> {
@@ -69,6 +76,7 @@ fn parse(case: &str) -> Option<Vec<Op>> {
             ("S", 2) => Op::Scan(unhex(f[1])),
             ("X", 2) => Op::GapScan(unhex(f[1])),
             ("U", 2) => Op::Succ(unhex(f[1])),
+            ("L", 4) => Op::RoleScan(f[1].chars().next()?, f[2].parse().ok()?, unhex(f[3])),
             _ => return None,
         };
         ops.push(op);
@@ -120,7 +128,7 @@ fn gap_callback() {
     }
 }
 
-fn run_engine<S: StateMachine>(sm: Arc<S>, kind: Kind, ops: &[Op], universe: &[Vec<u8>]) -> String {
+fn run_engine<S: StateMachine + std::fmt::Debug>(sm: Arc<S>, kind: Kind, ops: &[Op], universe: &[Vec<u8>]) -> String {
     let mut flags = String::new();
     let mut reads: Vec<String> = vec![];
     let mut pending: Vec<Entry> = vec![];
@@ -186,6 +194,12 @@ fn run_engine<S: StateMachine>(sm: Arc<S>, kind: Kind, ops: &[Op], universe: &[V
                 // the private `prefix_successor` (hook); does not touch the engine
                 let u = d_engine_server::storage::verif_prefix_successor(p);
                 reads.push(format!("U{}", u.map(|v| hex(&v)).unwrap_or_else(|| "_".into())));
+            }
+            Op::RoleScan(role, delta, p) => {
+                if let Err(e) = flush(&mut pending, &mut flags) {
+                    return e;
+                }
+                reads.push(role_scan(sm.clone(), *role, *delta, p, kind == Kind::File));
             }
             Op::GapScan(p) => {
                 // the pending chunk is applied "concurrently" with the scan, at the engine's gap
@@ -273,6 +287,79 @@ fn run_engine<S: StateMachine>(sm: Arc<S>, kind: Kind, ops: &[Op], universe: &[V
         la.index,
         la.term
     )
+}
+
+
+// ---------------------------------------------------------------------------------- API path (role states)
+/// Everything mocked except the state machine, which is the real engine under test.
+#[derive(Debug)]
+struct KT<S>(std::marker::PhantomData<fn() -> S>);
+impl<S: StateMachine + std::fmt::Debug> d_engine_core::TypeConfig for KT<S> {
+    type SE = d_engine_core::MockStorageEngine;
+    type SM = S;
+    type R = d_engine_core::MockRaftLog;
+    type M = d_engine_core::MockMembership<Self>;
+    type TR = d_engine_core::MockTransport<Self>;
+    type E = d_engine_core::MockElectionCore<Self>;
+    type REP = d_engine_core::MockReplicationCore<Self>;
+    type C = d_engine_core::MockCommitHandler;
+    type SMH = d_engine_core::MockStateMachineHandler<Self>;
+    type SNP = d_engine_core::MockSnapshotPolicy;
+    type PE = d_engine_core::MockPurgeExecutor;
+}
+
+fn role_scan<S: StateMachine + std::fmt::Debug>(sm: Arc<S>, role: char, delta: u64, p: &[u8], sort: bool) -> String {
+    use d_engine_core::role_state::RaftRoleState;
+    use d_engine_core::{ClientCmd, MaybeCloneOneshot, RaftContext, RaftCoreHandlers, RaftOneshot, RaftStorageHandles};
+    rt().block_on(async {
+        let cfg = Arc::new(d_engine_core::RaftNodeConfig::default());
+        let commit = sm.last_applied().index + delta;
+        let ctx = RaftContext::<KT<S>> {
+            node_id: 1,
+            storage: RaftStorageHandles { raft_log: Arc::new(d_engine_core::MockRaftLog::new()), state_machine: sm.clone() },
+            transport: Arc::new(d_engine_core::MockTransport::new()),
+            membership: Arc::new(d_engine_core::MockMembership::new()),
+            handlers: RaftCoreHandlers {
+                election_handler: d_engine_core::MockElectionCore::new(),
+                replication_handler: d_engine_core::MockReplicationCore::new(),
+                state_machine_handler: Arc::new(d_engine_core::MockStateMachineHandler::new()),
+                purge_executor: Arc::new(d_engine_core::MockPurgeExecutor::new()),
+            },
+            node_config: cfg.clone(),
+        };
+        let (tx, mut rx) = MaybeCloneOneshot::new();
+        let cmd = ClientCmd::Scan(Bytes::copy_from_slice(p), tx);
+        match role {
+            'l' => {
+                let mut st = d_engine_core::leader_state::LeaderState::<KT<S>>::new(1, cfg.clone());
+                st.update_commit_index(commit).unwrap();
+                st.push_client_cmd(cmd, &ctx);
+            }
+            'f' => {
+                let mut st = d_engine_core::follower_state::FollowerState::<KT<S>>::new(1, cfg.clone(), None, None);
+                st.update_commit_index(commit).unwrap();
+                st.push_client_cmd(cmd, &ctx);
+            }
+            'c' => {
+                let f = d_engine_core::follower_state::FollowerState::<KT<S>>::new(1, cfg.clone(), None, None);
+                let mut st = d_engine_core::candidate_state::CandidateState::from(&f);
+                st.update_commit_index(commit).unwrap();
+                st.push_client_cmd(cmd, &ctx);
+            }
+            'n' => {
+                let mut st = d_engine_core::learner_state::LearnerState::<KT<S>>::new(1, cfg.clone());
+                st.update_commit_index(commit).unwrap();
+                st.push_client_cmd(cmd, &ctx);
+            }
+            _ => return "Ebad-role".to_string(),
+        }
+        match rx.try_recv() {
+            Ok(Ok(r)) => show_scan(r.entries, r.revision, sort),
+            Ok(Err(st)) if st.code() == tonic::Code::FailedPrecondition && st.message() == "Not leader" => "Enot-leader".into(),
+            Ok(Err(st)) => format!("E{:?}", st.code()),
+            Err(_) => "Eno-answer".into(),
+        }
+    })
 }
 
 fn universe(ops: &[Op]) -> Vec<Vec<u8>> {
@@ -410,6 +497,11 @@ fn gen_cmd(r: &mut Rng, keys: &[&str], vals: &[&str], shadow: &mut std::collecti
 }
 
 fn gen_read(r: &mut Rng, keys: &[&str]) -> String {
+    if r.chance(1, 6) {
+        let role = *r.pick(&["l", "l", "l", "l", "f", "c", "n"]);
+        let delta = *r.pick(&[0u64, 0, 1, 2, 5, 1000]);
+        return format!("L:{}:{}:{}", role, delta, r.pick(&PREFIXES));
+    }
     if r.chance(1, 8) {
         let n = r.below(4);
         let p: String = (0..n).map(|_| *r.pick(&["ff", "ff", "00", "61", "fe", "7f", "80"])).collect();
@@ -504,6 +596,10 @@ fn generate(r: &mut Rng, n: usize, tier: &str) -> Vec<String> {
         }
         if gap {
             ops.push(format!("X:{}", r.pick(&PREFIXES)));
+        }
+        if i % 4 == 2 {
+            // API path with committed-but-unapplied entries (commit index ahead of last_applied)
+            ops.push(format!("L:l:{}:{}", r.pick(&[1u64, 2, 7]), r.pick(&PREFIXES)));
         }
         ops.push(format!("S:{}", r.pick(&PREFIXES)));
         out.push(format!("kv|{}", ops.join(";")));
